@@ -20,12 +20,12 @@ import (
 )
 
 type xformCase struct {
-	ID      int    `json:"id"`
-	T       string `json:"t"` // transform name, or a chain "A+B+C" (then built with transform.New)
-	Shape   string `json:"shape"`
-	Size    int    `json:"size"`
-	Seed    int64  `json:"seed"`
-	Hint    int    `json:"hint"`    // -1 = no data type in the context; k >= 0: the data type that classifier stage classifiers[k] leaves for THIS block
+	ID    int    `json:"id"`
+	T     string `json:"t"` // transform name, or a chain "A+B+C" (then built with transform.New)
+	Shape string `json:"shape"`
+	Size  int    `json:"size"`
+	Seed  int64  `json:"seed"`
+	Hint  int    `json:"hint"` // -1 = no data type in the context; k >= 0: the data type that classifier stage classifiers[k] leaves for THIS block
 	// (the event reports the integer value of the type that was found, or -1 when the classifier left none)
 	Entropy string `json:"entropy"` // entropy codec name in the context (selects TEXT variants)
 	Jobs    uint   `json:"jobs"`
@@ -458,7 +458,7 @@ func cmdXform(args []string) int {
 		go func(i int) {
 			defer wg.Done()
 			defer func() { <-sem }()
-			if !guard(func() { evs[i] = runXform(cases[i]) }) {
+			if !guardBytes(cases[i].Size, func() { evs[i] = runXform(cases[i]) }) {
 				evs[i] = tr.Ev{"ev": "STAGE", "id": cases[i].ID, "t": cases[i].T, "shape": cases[i].Shape, "size": cases[i].Size, "hint": cases[i].Hint,
 					"entropy": cases[i].Entropy, "fwd": "hang", "fwdPanic": "", "outLen": 0, "maxLen": 0, "srcIntact": true, "inv": "none", "invPanic": "",
 					"invLen": 0, "restored": false, "read": 0, "skip": -1, "chain": isChain(cases[i].T)}
